@@ -162,12 +162,10 @@ def main(argv):
 
     # ---------------- cases for wrap_lines
     cases = []
-    ex_lines = gen_exhaustive(c, 5 if quick else 7)
+    ex_lines = gen_exhaustive(c, 5 if quick else 6)
     for delims in ([32, 0xB7], [0xB7, 32]):
         for width in range(1, 7):
             for keep in (True, False):
-                if not quick and delims[0] != 32 and width > 3:
-                    continue
                 for line in ex_lines:
                     cases.append((width, keep, delims, line))
     n_ex = len(cases)
@@ -237,6 +235,24 @@ def main(argv):
                 c.violation("%s: wrap_lines(%r, width=%d, keep=%s, delims=%r): %s" % (kind, line, width, keep, delims, text),
                             {"op": "wrap_lines", "kind": kind, "line_hex": hx(line), "line": line.decode("utf-8"), "width": width, "keep": keep,
                              "delims": delims, "pieces_hex": [hx(p) for p in r[0]], "withheld_hex": [hx(d) for d in r[1]], "how": how})
+
+    # ---------------- the theorems' own boolean predicate (extracted check_wrap) on the implementation's pieces
+    if impl_ok and drv is not None:
+        idx = [i for i in range(n_valid) if out[1 + i].startswith("OK ")]
+        step = max(1, len(idx) // (40000 if quick else 400000))
+        idx = idx[::step]
+        clines = ["C %d %d %s %s %s" % (cases[i][0], 1 if cases[i][1] else 0, dl(cases[i][2]), hx(cases[i][3]), out[1 + i][3:]) for i in idx]
+        rc2, cout, e2 = run_lines(drv, clines)
+        if len(cout) != len(clines):
+            c.broken.append("model driver died on check_wrap cases: " + e2[-300:])
+        else:
+            c.cov["traces_validated_against_impl"] += len(clines)
+            for i, o in zip(idx, cout):
+                if o != "1":
+                    width, keep, delims, line = cases[i]
+                    c.violation("check_wrap: the extracted predicate of the C07 theorems rejects the pieces of wrap_lines(%r, width=%d, keep=%s, delims=%r): %s" % (line, width, keep, delims, out[1 + i]),
+                                {"op": "wrap_lines", "kind": "check_wrap", "line_hex": hx(line), "width": width, "keep": keep, "delims": delims, "impl": out[1 + i]})
+                    break
 
     # ---------------- tool level: bin/foldfilter with scripted children
     tcases = []
@@ -328,7 +344,7 @@ def main(argv):
     c.sample({"tool_case": tlines[3][:200]})
 
     return c.finish(level="proof",
-                    rule="wrap_lines: every line over {a, e-acute, euro sign, U+1F600, space, middle dot} up to length %d x widths 1-6 x both -s modes x both delimiter preference orders; random lines of 1-4 byte code points (incl. CR, U+FFFD, U+10FFFF) with delimiter runs, widths around the line length, 7 delimiter lists incl. empty and multi-byte; malformed UTF-8 lines; tool level: bin/foldfilter x option sets x identity/bracketing/upper-casing children on multi-line inputs incl. empty lines, CR, no final newline. distinct = distinct non-empty inputs" % (5 if quick else 7),
+                    rule="wrap_lines: every line over {a, e-acute, euro sign, U+1F600, space, middle dot} up to length %d x widths 1-6 x both -s modes x both delimiter preference orders; random lines of 1-4 byte code points (incl. CR, U+FFFD, U+10FFFF) with delimiter runs, widths around the line length, 7 delimiter lists incl. empty and multi-byte; malformed UTF-8 lines; tool level: bin/foldfilter x option sets x identity/bracketing/upper-casing children on multi-line inputs incl. empty lines, CR, no final newline. distinct = distinct non-empty inputs" % (5 if quick else 6),
                     assumptions=["lines shorter than 2^31 bytes (pos_first_delimiter is an int32_t)",
                                  "valid UTF-8 = accepted by util::DecodeUTF8 (C12 proves that this is Unicode Table 3-7)",
                                  "the child is line-preserving: one answer line (without LF) per piece; pipes and threads are C05/C16",
